@@ -252,7 +252,8 @@ impl ExprIntervalGraphNode {
 ///
 /// Since integer division truncates, `[pL, pU]` is first widened to the range
 /// of the exact ratios that truncate into it when propagating through an
-/// integer division.
+/// integer division. A factor of a product is left as is when both the product
+/// and the other factor can be zero, as `x * 0 = 0` holds for any `x`.
 pub fn propagate_arithmetic(
     op: &Operator,
     parent: &Interval,
@@ -285,6 +286,7 @@ pub fn propagate_arithmetic(
         _ => {
             // First, propagate to the left:
             let left = match op {
+                Operator::Multiply => divide_product(parent, right_child)?,
                 Operator::Divide => widen_truncated_quotient(parent)?.mul(right_child)?,
                 _ => apply_operator(&inverse_op, parent, right_child)?,
             };
@@ -692,10 +694,26 @@ fn propagate_right(
         Operator::Minus => apply_operator(op, left, parent),
         Operator::Plus => apply_operator(inverse_op, parent, left),
         Operator::Divide => left.div(widen_truncated_quotient(parent)?),
-        Operator::Multiply => apply_operator(inverse_op, parent, left),
+        Operator::Multiply => divide_product(parent, left),
         _ => internal_err!("Interval arithmetic does not support the operator {}", op),
     }?
     .intersect(right)
+}
+
+/// Computes an interval containing every value `x` for which `x * y` lies in
+/// `product` for some `y` in `factor`; i.e. inverts a multiplication.
+fn divide_product(product: &Interval, factor: &Interval) -> Result<Interval> {
+    let quotient = product.div(factor)?;
+    // Any `x` satisfies `x * 0 = 0`. The quotient does not account for this
+    // when zero is merely an endpoint of `factor`, so give up on narrowing if
+    // both the product and the factor can be zero:
+    if product.contains_value(ScalarValue::new_zero(&product.data_type())?)?
+        && factor.contains_value(ScalarValue::new_zero(&factor.data_type())?)?
+    {
+        Interval::make_unbounded(&quotient.data_type())
+    } else {
+        Ok(quotient)
+    }
 }
 
 /// Integer division truncates: `x / y = p` only implies that the exact ratio
